@@ -49,7 +49,7 @@ class G:
         if s.r.random()<0.6: return ''
         ls=[]
         for _ in range(s.r.randint(1,3)):
-            t=s.ind()+s.r.choice(['free text','more 😀 text','\\ odd | line','Given in feature desc' if 'step' not in stop_kinds else 'plain'])+s.trail()
+            t=s.ind()+s.r.choice(['free text','more 😀 text','\\ odd | line','esc \\`\\`\\` and \\"\\"\\" kept','Given in feature desc' if 'step' not in stop_kinds else 'plain'])+s.trail()
             s.emit(t); ls.append(t)
             if s.r.random()<0.3:
                 c=s.ind()+'# in desc'; ln=s.emit(c); s.comments.append({'location':{'line':ln,'column':1},'text':c})
@@ -168,7 +168,7 @@ def gen_document(seed):
     return G(seed).document()
 
 
-KIND_LINES = ['Feature: f', 'Rule: r', 'Background:', 'Scenario: s', 'Scenario Outline: o', 'Examples:',
+KIND_LINES = ['a \\`\\`\\` b \\"\\"\\" c', 'Feature: f', 'Rule: r', 'Background:', 'Scenario: s', 'Scenario Outline: o', 'Examples:',
               'Given g', '* star', 'And a', '| a | b |', '| x |', '"""', '```', '@tag', '@a @b', '@bad tag',
               '# comment', '#language: fr', '# language: no-such', '', '   ', 'free text', '\\', '|', '@',
               'Fonctionnalité: x', 'Scénario: y', '\tGiven tab', 'Given', 'Examples: e', '| \\| |']
